@@ -42,7 +42,9 @@ def monitor(b, vals, obs):
                 walk(s["name"], s["block"])
 
     # leaves define no calls; connects are elaborated after the items: site order = order of the items' calls
-    for it in spec["items"]:
+    from ..core.simulgen import flat_items
+
+    for it, _guard in flat_items(spec):
         walk(it["name"], it["block"])
     ids = b.id_of
     pairs = [tuple(p) for p in spec.get("simul", [])] + [(c["name"] + ".write", c["name"] + ".read") for c in spec.get("connects", [])]
@@ -73,7 +75,7 @@ def monitor(b, vals, obs):
     return None
 
 
-KINDS = ["connect", "nested", "connect2", "tt", "mm", "tm", "connect", "nested", "free", "nested"]
+KINDS = ["connect", "nested", "guarded", "half", "connect2", "tt", "guarded", "mm", "tm", "nested", "half", "free", "guarded", "nested"]
 
 
 def gen(pid: str, index: int, seed: int, tier: str) -> dict:
